@@ -487,13 +487,35 @@ def make_machine(ctx, last):
             self._do({"op": "set_dur", "key": key, "v": v})
 
         @rule(circ=shaped_block_strategy(), what=st.sampled_from(["operations", "times", "plot", "duration"]),
-              key=st.sampled_from(["k0", "k1"]), v=dyadic)
-        def block_unroll_observe_change(self, circ, what, key, v):
-            """The interleaving the quantifier names: nest a repeated block, unroll, observe, change a duration."""
+              key=st.sampled_from(["k0", "k1"]), v=dyadic, then_flatten=st.booleans())
+        def block_unroll_observe_change(self, circ, what, key, v, then_flatten):
+            """The interleaving the quantifier names: nest a repeated block, unroll, observe, change a duration
+            (and, half of the time, flatten: positions in the flattened graph are chosen among the then latest references)."""
             self._do({"op": "add_sub", "circ": circ})
             self._do({"op": "unroll"})
             self._do({"op": "obs", "what": what})
             self._do({"op": "set_dur", "key": key, "v": v})
+            if then_flatten:
+                self._do({"op": "flatten"})
+
+        @rule(reps=st.integers(2, 3), parts=st.lists(st.sampled_from([0.5, 1.0, 1.5]), min_size=1, max_size=3),
+              key=st.sampled_from(["k0", "k1"]), what=st.sampled_from(["times", "times", "duration", "plot_full"]),
+              order=st.booleans(), then=st.sampled_from(["flatten", "flatten", "add_sub", "none"]), longer=st.booleans())
+        def block_branches_become_equally_late(self, reps, parts, key, what, order, then, longer):
+            """Boundary of the latest-leaf rule: a repeated block with one registry-timed branch and one branch of fixed pieces;
+            after unrolling and an observation the registry value is set so that both branches end at the same time."""
+            a = {"k": "Wait", "q": [0], "ch": "ALL", "d": ["reg", key]}
+            b = [{"k": "Wait", "q": [1], "ch": "ALL", "d": ["fix", x]} for x in parts]
+            # before the change the registry-timed branch is the longer / the shorter one
+            self._do({"op": "set_dur", "key": key, "v": float(sum(parts)) + 1.0 if longer else max(0.0, float(sum(parts)) - 0.5)})
+            self._do({"op": "add_sub", "circ": {"reps": reps, "rmode": "fix", "items": ([a] + b) if order else (b + [a])}})
+            self._do({"op": "unroll"})
+            self._do({"op": "obs", "what": what})
+            self._do({"op": "set_dur", "key": key, "v": float(sum(parts))})
+            if then == "flatten":
+                self._do({"op": "flatten"})
+            elif then == "add_sub":
+                self._do({"op": "add_sub", "circ": {"reps": 1, "items": [{"k": "Rx180", "q": [0]}, {"k": "Rx180", "q": [1]}]}})
 
         @rule(v=st.integers(1, 3))
         def set_rep(self, v):
